@@ -32,6 +32,10 @@ pub struct EnvCase {
     /// routing prefix frame lengths (RawToLibRep only; non-empty prefix => announced as DEALER)
     pub prefix: Vec<usize>,
     pub seed: u32,
+    /// LibReqRawRep only: this many peers connected and failed (their ids are left stale in the
+    /// REQ's rotation) before the exchange with the live peer
+    #[serde(default)]
+    pub stale: usize,
 }
 
 fn frames(lens: &[usize], seed: u32) -> Frames {
@@ -68,6 +72,9 @@ pub fn env_outcome(c: &EnvCase) -> Outcome {
     if !c.prefix.is_empty() {
         o.class("routing-prefix");
     }
+    if c.stale > 0 {
+        o.class("stale-rotation-entries");
+    }
     if c.payload.iter().chain(c.reply.iter()).any(|l| *l >= 70_000) {
         o.class("large-frame");
     }
@@ -82,6 +89,16 @@ pub fn env_outcome(c: &EnvCase) -> Outcome {
             match c.mode {
                 Mode::LibReqRawRep => {
                     let s = sim.socket(Kind::Req, None);
+                    for _ in 0..c.stale {
+                        // a peer that connects and whose connection then fails on write
+                        let dead = sim.link();
+                        dead.raw_handshake("REP", None);
+                        let a = sim.attach(s, &dead);
+                        let _ = sim.run(a).await;
+                        dead.from_lib.break_writer(std::io::ErrorKind::BrokenPipe);
+                        let a = sim.send(s, &[b"probe".to_vec()]);
+                        let _ = sim.run(a).await;
+                    }
                     let link = sim.link();
                     link.raw_handshake("REP", None);
                     let a = sim.attach(s, &link);
@@ -376,6 +393,7 @@ pub fn run(ctx: &Ctx) -> (Report, PropertyMeta) {
                 reply: reply.clone(),
                 prefix: prefix.to_vec(),
                 seed: i as u32,
+                stale: 0,
             });
         }
         cases.push(EnvCase {
@@ -384,6 +402,7 @@ pub fn run(ctx: &Ctx) -> (Report, PropertyMeta) {
             reply: reply.clone(),
             prefix: vec![],
             seed: i as u32,
+            stale: 0,
         });
         cases.push(EnvCase {
             mode: Mode::EndToEnd,
@@ -391,7 +410,21 @@ pub fn run(ctx: &Ctx) -> (Report, PropertyMeta) {
             reply,
             prefix: vec![],
             seed: i as u32,
+            stale: 0,
         });
+    }
+    // the same exchange after 1..3 earlier peers of the REQ have failed (stale rotation entries)
+    for (i, p) in sh.iter().enumerate().filter(|(i, _)| i % 7 == 0) {
+        for stale in 1..=3usize {
+            cases.push(EnvCase {
+                mode: Mode::LibReqRawRep,
+                payload: p.clone(),
+                reply: sh[(i * 3 + 1) % sh.len()].clone(),
+                prefix: vec![],
+                seed: i as u32,
+                stale,
+            });
+        }
     }
     let r = run_cases(ctx, "envelope", &cases, env_outcome);
     report.exhaustive_parts.push(format!(
@@ -450,6 +483,7 @@ pub fn run(ctx: &Ctx) -> (Report, PropertyMeta) {
                 reply,
                 prefix,
                 seed: s.next() as u32,
+                stale: if mode == Mode::LibReqRawRep && s.chance(1, 3) { s.range(1, 3) } else { 0 },
             }
         },
         env_outcome,
